@@ -46,8 +46,13 @@ func (c *checkSchema) checkType(name string, typ schema.Type, ss map[string]sche
 
 		// Return an error with the full set of bytes of the root schema.
 		if documentError, ok := r.(errors.DocumentError); ok {
-			documentError.SetFile(typ.RootFile())
-			documentError.SetIndex(documentError.Index() + typ.Begin())
+			// A node inherited through "allOf" keeps the file and the positions
+			// of the type it comes from: such an error is already complete.
+			if documentError.Filename() == "" || typ.RootFile() == nil ||
+				documentError.Filename() == typ.RootFile().Name() {
+				documentError.SetFile(typ.RootFile())
+				documentError.SetIndex(documentError.Index() + typ.Begin())
+			}
 			documentError.SetIncorrectUserType(name)
 			panic(documentError)
 		}
